@@ -1,3 +1,4 @@
+import PGT.Model.Float
 /-
 Bit-precise scalars and Go's conversions between them (C19 is *about* width, sign and rounding):
 integers as `BitVec 32/64`, IEEE-754 binary32/binary64 as bit patterns, strings as byte lists.
@@ -40,72 +41,6 @@ def repOfProto (t : String) : GoRep :=
   else if t == "timestamp" then .time else if t == "duration" then .dur
   else .str
 
-namespace F
-
-/-- number of leading zeros of a 23-bit mantissa (as a chain, so that it is a closed bit-vector term) -/
-def clz23 (m : BitVec 23) : Nat := (List.range 23).find? (fun i => m.getMsbD i) |>.getD 23
-
-/-- float32 → float64, exact (`float64(x)` in Go). NaNs are quieted, payload kept (amd64 CVTSS2SD). -/
-def widen64 (x : BitVec 32) : BitVec 64 :=
-  let sign : BitVec 64 := (x.extractLsb' 31 1).zeroExtend 64 <<< 63
-  let e : Nat := (x.extractLsb' 23 8).toNat
-  let m : BitVec 23 := x.extractLsb' 0 23
-  if e == 255 then
-    if m == 0 then sign ||| (0x7ff : BitVec 64) <<< 52
-    else sign ||| (0x7ff : BitVec 64) <<< 52 ||| (1 : BitVec 64) <<< 51 ||| (m.zeroExtend 64 <<< 29)
-  else if e == 0 then
-    if m == 0 then sign
-    else
-      -- subnormal: normalise
-      let z := clz23 m                    -- 0 ≤ z ≤ 22
-      let m' : BitVec 64 := ((m.zeroExtend 64) <<< (z + 1)) &&& 0x7fffff  -- drop the leading one
-      let e' : Nat := 1023 - 126 - (z + 1)
-      sign ||| (BitVec.ofNat 64 e') <<< 52 ||| (m' <<< 29)
-  else
-    sign ||| (BitVec.ofNat 64 (e + 1023 - 127)) <<< 52 ||| (m.zeroExtend 64 <<< 29)
-
-/-- round-to-nearest-even right shift of a natural number -/
-def rshiftRNE (v : Nat) (s : Nat) : Nat :=
-  let q := v >>> s
-  let r := v % (2 ^ s)
-  let half := 2 ^ s / 2
-  if s == 0 then v
-  else if r > half then q + 1
-  else if r < half then q
-  else if q % 2 == 1 then q + 1 else q
-
-/-- float64 → float32, round to nearest even (`float32(x)` in Go); overflow to ±Inf, gradual underflow. -/
-def narrow32 (x : BitVec 64) : BitVec 32 :=
-  let sign : BitVec 32 := (x.extractLsb' 63 1).zeroExtend 32 <<< 31
-  let e : Nat := (x.extractLsb' 52 11).toNat
-  let m : Nat := (x.extractLsb' 0 52).toNat
-  if e == 2047 then
-    if m == 0 then sign ||| 0x7f800000
-    else sign ||| 0x7f800000 ||| 0x00400000 ||| BitVec.ofNat 32 (m >>> 29)
-  else
-    -- unbiased exponent e - 1023; float32 normal range: -126 .. 127
-    if e == 0 then sign  -- float64 zero or subnormal: far below float32's smallest subnormal (2^-149)
-    else if e + 127 ≥ 1023 + 1 then
-      -- candidate normal (biased exponent e32 = e - 896 ≥ 1)
-      let e32 := e + 127 - 1023
-      let full := (2 ^ 52 + m)              -- 53-bit significand
-      let r := rshiftRNE full 29            -- 24 bits, or 2^24 after carry
-      let (e32, r) := if r ≥ 2 ^ 24 then (e32 + 1, r / 2) else (e32, r)
-      if e32 ≥ 255 then sign ||| 0x7f800000
-      else sign ||| BitVec.ofNat 32 (e32 * 2 ^ 23 + (r - 2 ^ 23))
-    else
-      -- subnormal or zero result: value = full * 2^(e-1075); target unit 2^-149 ⇒ shift right by (1075 - 149 - e) = 926 - e
-      let full := (2 ^ 52 + m)
-      let s := 926 - e
-      if s > 54 then sign
-      else sign ||| BitVec.ofNat 32 (rshiftRNE full s)   -- may carry into the smallest normal: still the right pattern
-
-def isNaN32 (x : BitVec 32) : Bool := (x.extractLsb' 23 8) == 0xff && (x.extractLsb' 0 23) != 0
-def isNaN64 (x : BitVec 64) : Bool := (x.extractLsb' 52 11) == 0x7ff && (x.extractLsb' 0 52) != 0
-/-- `x == 0` on float64: both zeros -/
-def isZero64 (x : BitVec 64) : Bool := (x &&& 0x7fffffffffffffff) == 0
-
-end F
 
 /-- Go's conversion `T(x)` from representation `src` to representation `dst`. `none`: not modelled
 (such a conversion is never emitted for the unchanged table). -/
